@@ -667,7 +667,7 @@ pub fn run(tier: &str) -> i32 {
     o.cov("families", json!(recs));
     o.cov("distinct_outcomes", json!(outcomes.lock().unwrap().len()));
     o.cov("exhaustive", json!(exhaustive));
-    fold_e3(&mut o, "C07", tier, &bodies(tier), "e3_");
+    fold_e3(&mut o, "C07", tier, &crate::e3::with_variants(bodies(tier), tier), "e3_");
     o.cov("rule", json!("E1: histories of 2-3 optimistic transactions over keys {a,ab,b}: (i) two transactions of 1-2 steps with EVERY interleaving of all begin/step/commit events; (ii) two transactions covering every read method (get, contains_key, size_of, first/last_key_value, iter, range with every bound shape, prefix, is_empty, len) x every write method (insert, remove, take, fetch_update, update_fetch) in every begin/commit order; (iii) three transactions from small shapes in every begin/commit order; (iv) the same with a maintenance step (write + rotation elsewhere: watermark pull-up and GC of the committed-transaction table) at every position. Each history runs on the real database; the oracle searches all serial orders of the committed transactions consistent with real time for one that reproduces every recorded read result and the final state; a refused transaction must leave no effect. A Conflict is never a violation by itself. E3: write-skew / lost-update bodies under every schedule up to the preemption bound with scheduling points inside Oracle::with_commit."));
     o.assumptions = vec![
         "in families (ii)-(iv) a transaction's steps are placed right after its begin: steps read the begin-time snapshot and buffer writes, so only the order of begin and commit events matters; family (i) validates this by enumerating every interleaving".into(),
@@ -690,7 +690,7 @@ pub fn replay(v: &serde_json::Value) -> i32 {
         let tier = v["variant"]["tier"].as_str().unwrap_or("quick");
         let bi = v["variant"]["body_index"].as_u64().unwrap_or(0) as usize;
         let choices: Vec<usize> = v["variant"]["choices"].as_array().map(|a| a.iter().filter_map(|c| c.as_u64().map(|c| c as usize)).collect()).unwrap_or_default();
-        return match bodies(tier).get(bi) {
+        return match crate::e3::with_variants(bodies(tier), tier).get(bi) {
             Some(b) => replay_schedule(&*b.body, &choices),
             None => 2,
         };
